@@ -32,6 +32,19 @@ def pooled_blocks(env, tier, own=OWN, only=None):
             tr, outs, _ = pr.evaluate("pool", P=rnd.choice([2, 3, 4, 6, 8]), sched_seed=q * 7 + s, switch_prob=rnd.choice([0.05, 0.3]))
             if outs is not None:
                 c16.record_outputs(env, own, pr, outs)
+        if q % 4 == 0:
+            # ... and through CPython's own ThreadPool (1 microsecond switch interval): the stand-in pool completes a job
+            # before it hands anything back, the real one does not wait for anybody unless asked to
+            import sys
+            old = sys.getswitchinterval()
+            sys.setswitchinterval(1e-6)
+            try:
+                for P in (2, 4):
+                    tr, outs, _ = pr.evaluate("pool", P=P, real_pool=True)
+                    if outs is not None:
+                        c16.record_outputs(env, own, pr, outs)
+            finally:
+                sys.setswitchinterval(old)
 
 
 # ---- the scaffold as a specified algorithm (CubeAxes.tla) ---------------------------------------------------------
